@@ -14,6 +14,8 @@ pub struct Model {
     pub valclass: String,
     /// tokens mapped to a 600 kB string (two such updates exceed the 1 MB batch limit)
     pub big: Vec<String>,
+    /// sub-second part given to every timestamp (0: whole seconds)
+    pub nanos: u32,
     rev: HashMap<String, String>,
     interned: Vec<String>,
 }
@@ -25,6 +27,7 @@ impl Model {
         Model {
             valclass: valclass.to_string(),
             big: big.to_vec(),
+            nanos: 0,
             rev: HashMap::new(),
             interned: vec![],
         }
@@ -46,7 +49,7 @@ impl Model {
     }
 
     pub fn time(&self, t: i64) -> DateTime<Utc> {
-        Utc.timestamp_opt(TIME_BASE + t, 0).unwrap()
+        Utc.timestamp_opt(TIME_BASE + t, self.nanos).unwrap()
     }
 
     pub fn time_tok(&self, t: &DateTime<Utc>) -> i64 {
